@@ -56,6 +56,8 @@ fn main() {
     };
     if let Some(rp) = replay {
         let f = std::io::BufReader::new(std::fs::File::open(&rp).unwrap());
+        // the replayed lines with the answers recorded afresh from this run (`Engine::recorded`)
+        let mut ops_out = std::io::BufWriter::new(std::fs::File::create(&ops_path).unwrap());
         for line in f.lines() {
             let line = line.unwrap();
             let t = line.trim();
@@ -68,10 +70,12 @@ fn main() {
             }
             let obs = eng.exec(t, &mut mon);
             tally(t, &obs, &mut outcome_mix, &mut op_mix);
+            writeln!(ops_out, "{}", eng.recorded(t)).unwrap();
             writeln!(obs_out, "{obs}").unwrap();
             mon.step += 1;
             n_ops += 1;
         }
+        ops_out.flush().unwrap();
     } else {
         let mut ops_out = std::io::BufWriter::new(std::fs::File::create(&ops_path).unwrap());
         let mut rng = Rng::new(seed);
